@@ -312,4 +312,8 @@ def run_one(tape, cfg):
     out.nontrivial = len(hist) >= 3 and gets >= 1 and (
         out.probes.get("same_cb_nested", 0) + out.probes.get("registered_then_entered", 0) > 0)
     out.policy = "history"
+    for src, dst in (("get_failed", "scheduler_call_failed"), ("cb_raised", "callback_raised"),
+                     ("interrupt", "client_interrupt")):
+        if out.probes.get(src):
+            out.faults[dst] = out.probes[src]
     return out
